@@ -81,7 +81,7 @@ class PandasDataFrameCache(FileCache):
                 df = pd.concat([df, new_df])
             except FileNotFoundError:
                 df = new_df
-            df = df.sort_index()
             df = df[~df.index.duplicated(keep='first')]
+            df = df.sort_index()
             update_applied = self.update_file(file_name, serialize_df(df))
             return df if update_applied else self.update(file_name, new_df)
